@@ -49,6 +49,10 @@ func replay(c *vlib.Ctx) error {
 	b, _ := json.Marshal(in)
 	switch c.Prop {
 	case "C10", "C41":
+		if m, _ := in.(map[string]any); m != nil && m["subset"] == true {
+			runSubset(c)
+			return nil
+		}
 		var cs caseSpec
 		if err := json.Unmarshal(b, &cs); err != nil {
 			return err
